@@ -4,6 +4,7 @@ import (
 	"fmt"
 	"sort"
 	"strconv"
+	"strings"
 
 	sdk "github.com/cosmos/cosmos-sdk/types"
 	testkeeper "github.com/lavanet/lava/v5/testutil/keeper"
@@ -308,6 +309,24 @@ func runC16(r *simrt.Run) {
 	cfg.Faults["month_jump"] = false // slow-chain weeks add nothing here and cost many blocks
 	s := NewSim(r, cfg)
 	st := c16Arm(s)
+	// A halt of the chain is reported by C37 only, with one narrow exception that is this property's
+	// own subject: epoch-start processing giving up because the earliest epoch in memory has no
+	// parameters / no next epoch (the two panics of UpdateEarliestEpochstart).
+	defer func() {
+		p := recover()
+		if p == nil {
+			return
+		}
+		if simrt.IsSimPanic(p) && r.Violated() == nil && r.Probes["block_panic"] > 0 {
+			lines := r.LogLines()
+			for i := len(lines) - 1; i >= 0 && i >= len(lines)-5; i-- {
+				if strings.Contains(lines[i], "panicked at height") && strings.Contains(lines[i], "failed to advance EarliestEpochstart") {
+					r.Fail("c16-earliest-epoch-unmapped", "UpdateEarliestEpochstart", "epoch-start processing halted: %s", lines[i])
+				}
+			}
+		}
+		panic(p)
+	}()
 	c16Cur = st
 	s.AfterBlock = append(s.AfterBlock, st.afterBlock)
 	s.AfterTx = append(s.AfterTx, func(w *World, tx *TxResult) {
